@@ -203,12 +203,34 @@ Definition clear (c : cls) (p : params) (keep_adaptations : bool) (cols : list c
   map (fun col => mkCol (if has_adaptation c && negb keep_adaptations then map (fun _ => zero N) (ad col) else ad col)
                         (map (fun _ => (rest_v p, zero N)) (cells col))) cols.
 
+(* ---------- state written from outside (setters, in-place tensor edits, load_state_dict) ----------
+   hand-transcribed: mixins.py:52-57 / 103-108 (adaptation setters: a value of the buffer's own shape is stored as
+   is), 180-182 (voltage setter), 217-219 (refrac setter); torch.nn.Module.load_state_dict copies every persistent
+   tensor ('_voltage__data', '_refrac__data', 'threshold_adaptation_' / 'current_adaptation_').  Forward reads the
+   adaptation buffer afresh on every call, so all of these take effect on the next step. *)
+Definition set_adapt (cols : list column) (a : list (list T)) : list column :=
+  map2 (fun col arow => mkCol arow (cells col)) cols a.
+Definition add_adapt (cols : list column) (d : list (list T)) : list column :=
+  map2 (fun col drow => mkCol (map2 (add N) (ad col) drow) (cells col)) cols d.
+Definition set_voltage (cols : list column) (v : list (list T)) : list column :=
+  map2 (fun col vrow => mkCol (ad col) (map2 (fun (ce : cell) x => (x, snd ce)) (cells col) vrow)) cols v.
+Definition set_refrac (cols : list column) (r : list (list T)) : list column :=
+  map2 (fun col rrow => mkCol (ad col) (map2 (fun (ce : cell) x => (fst ce, x)) (cells col) rrow)) cols r.
+Definition load_state (cols : list column) (v r a : list (list T)) : list column :=
+  map4 (fun (_ : column) vrow rrow arow => mkCol arow (map2 (fun x y => (x, y)) vrow rrow)) cols v r a.
+
 (* ---------- operation sequences ---------- *)
 Record nstate := mkState { training : bool; cols : list column }.
 Inductive op :=
 | OpForward (adapt : option bool) (refrac_lock : bool) (inputs : list (list T))
 | OpClear (keep_adaptations : bool)
-| OpTrain (mode : bool).
+| OpTrain (mode : bool)
+(* state written from outside between steps (all matrices neuron-major) *)
+| OpSetAdapt (a : list (list T))        (* neuron.threshold_adaptation = t  /  neuron.current_adaptation = t  (public setter) *)
+| OpAddAdapt (d : list (list T))        (* neuron.threshold_adaptation.add_(t)  /  current_adaptation.add_(t)  (in place) *)
+| OpSetVoltage (v : list (list T))      (* neuron.voltage = t *)
+| OpSetRefrac (r : list (list T))       (* neuron.refrac = t *)
+| OpLoad (v r a : list (list T)).       (* neuron.load_state_dict(twin.state_dict()): voltage, refrac and adaptations *)
 
 Definition eff_adapt (adapt : option bool) (train : bool) : bool :=
   match adapt with Some b => b | None => train end.
@@ -220,6 +242,11 @@ Definition step (c : cls) (p : params) (s : nstate) (o : op) : option (list (lis
       (Some sp, mkState (training s) cs)
   | OpClear keep => (None, mkState (training s) (clear c p keep (cols s)))
   | OpTrain m => (None, mkState m (cols s))
+  | OpSetAdapt a => (None, mkState (training s) (set_adapt (cols s) a))
+  | OpAddAdapt d => (None, mkState (training s) (add_adapt (cols s) d))
+  | OpSetVoltage v => (None, mkState (training s) (set_voltage (cols s) v))
+  | OpSetRefrac r => (None, mkState (training s) (set_refrac (cols s) r))
+  | OpLoad v r a => (None, mkState (training s) (load_state (cols s) v r a))
   end.
 
 Fixpoint run (c : cls) (p : params) (s : nstate) (ops : list op) : list (option (list (list bool)) * nstate) :=
@@ -242,3 +269,8 @@ Arguments mkState {N}.
 Arguments OpForward {N}.
 Arguments OpClear {N}.
 Arguments OpTrain {N}.
+Arguments OpSetAdapt {N}.
+Arguments OpAddAdapt {N}.
+Arguments OpSetVoltage {N}.
+Arguments OpSetRefrac {N}.
+Arguments OpLoad {N}.
